@@ -90,6 +90,30 @@ theorem fresh_header_valid : isInvalidHeader ((specHeader env i idx orig bs p).b
   unfold crcWrite
   cases env.legacy <;> simp
 
+theorem fresh_size : fSize ((specHeader env i idx orig bs p).bytes ++ p) = bs := by
+  have := congrArg Meta.size (fresh_parseMeta env i idx orig bs p h)
+  simpa [parseMeta, specMeta] using this
+
+theorem fresh_bmSize : fBmSize ((specHeader env i idx orig bs p).bytes ++ p) = 0 := by
+  have := congrArg Meta.bmSize (fresh_parseMeta env i idx orig bs p h)
+  simpa [parseMeta, specMeta] using this
+
+/-- a fresh fragment announces exactly its payload: it fits every declared length that holds the
+    header and `bs` payload bytes (`fragment_exceeds_length` is false). -/
+theorem fresh_not_exceeds (fragLen : Nat) (hl : Hdr.size + bs ≤ fragLen) :
+    fragExceedsLength ((specHeader env i idx orig bs p).bytes ++ p) fragLen = false := by
+  unfold fragExceedsLength
+  rw [fresh_size env i idx orig bs p h, fresh_bmSize env i idx orig bs p h]
+  simp only [decide_eq_false_iff_not]
+  omega
+
+/-- a fresh fragment passes the header loop of decode / reconstruct. -/
+theorem fresh_gate (fragLen : Nat) (hl : Hdr.size + bs ≤ fragLen) :
+    gateBad fragLen ((specHeader env i idx orig bs p).bytes ++ p) = false := by
+  unfold gateBad
+  rw [fresh_header_valid env i idx orig bs p h, fresh_not_exceeds env i idx orig bs p h fragLen hl]
+  rfl
+
 /-- the metadata query on a fresh fragment returns the specified metadata, mismatch flag clear. -/
 theorem fresh_metadata (hp : p.length = bs) :
     getFragmentMetadata ((specHeader env i idx orig bs p).bytes ++ p) = .ok (specMeta env i idx orig bs p) := by
